@@ -188,6 +188,11 @@ Proof.
   rewrite firstn_app_len, skipn_app_len, app_assoc. reflexivity.
 Qed.
 
+Lemma cut_app' : forall (p x : list ival) k i j rs re, N.of_nat (length p) = k ->
+  rs = k + N.of_nat i -> re = k + N.of_nat j ->
+  firstn (N.to_nat rs) (p ++ x) ++ skipn (N.to_nat re) (p ++ x) = p ++ firstn i x ++ skipn j x.
+Proof. intros; subst rs re. apply cut_app; assumption. Qed.
+
 Lemma rscan_main : forall emax cp q k p a1 a2,
   N.of_nat (length p) = k -> iswf emax q -> a1 <= a2 -> a2 <= emax ->
   k + N.of_nat (length q) < usize_max ->
@@ -212,21 +217,21 @@ Proof.
     { intros x Hx Hx'. eapply ref_rem_beyond; [eassumption|assumption|]. eapply gap_beyond; eassumption. }
     assert (Hk0 : k = k + N.of_nat 0) by lia.
     assert (Hk1 : k + 1 = k + N.of_nat 1) by lia.
-    cbn [rscan fst snd]. cbn [ref_rem].
+    cbn [rscan fst snd].
     destruct (N.compare_spec a1 c) as [E1|L1|G1]; destruct (N.compare_spec a2 d) as [E2|L2|G2].
-    + (* (Equal, Equal) *) subst a1 a2. cbn [fst snd]. rewrite Hmin, Hmax1, apply_rm_cut by lia.
-      rewrite Hk1 at 2. rewrite Hk0 at 1. Show. rewrite cut_app by reflexivity. cbn [firstn skipn app].
+    + (* (Equal, Equal) *) subst a1 a2. cbn [ref_rem]. cbn [fst snd]. rewrite Hmin, Hmax1, apply_rm_cut by lia.
+      rewrite (cut_app' p _ k 0%nat 1%nat) by (assumption || lia). cbn [firstn skipn app].
       destruct (N.ltb_spec d c); [lia|]. destruct (N.ltb_spec d c); [lia|]. destruct (N.ltb_spec c c); [lia|].
       destruct (N.ltb_spec d d); [lia|]. cbn [app]. rewrite Hbey by lia.
       split; [reflexivity|]. split; [|cbn [length]; lia].
       rewrite Hk0. apply (idx_ok_at p t _ d []); auto. cbn; lia. intros ? [].
-    + (* (Equal, Less) *) subst a1. cbn [fst snd apply_rm].
+    + (* (Equal, Less) *) subst a1. cbn [ref_rem]. cbn [fst snd apply_rm].
       unfold end_exclusive, step_up_sat. cbn [snd]. destruct (N.ltb_spec a2 emax); [|lia].
       destruct (N.ltb_spec d c); [lia|]. destruct (N.ltb_spec a2 c); [lia|]. destruct (N.ltb_spec c c); [lia|].
       destruct (N.ltb_spec a2 d); [|lia]. cbn [app]. rewrite Hbey by lia.
       split; [reflexivity|]. split; [|cbn [length]; lia].
       rewrite Hk0. apply (idx_ok_at p _ _ a2 []); auto. cbn; lia. intros ? [].
-    + (* (Equal, Greater) *) subst a1.
+    + (* (Equal, Greater) *) subst a1. cbn [ref_rem].
       rewrite rscan_acc by lia.
       destruct (rscan_after emax cp t (k + 1) c a2 Hwft) as (t' & m & x & y & E & Hl' & Hm & Href & Hxy); try assumption; try lia.
       { intros b' Hb'. pose proof (Haft b' Hb'). lia. }
@@ -235,20 +240,20 @@ Proof.
       assert (Ere : N.max (N.max 0 (k + 1)) y = k + N.of_nat (S m)).
       { destruct Hxy as [(-> & _ & [->| ->])|(_ & _ & ->)]; lia. }
       rewrite Ers, Ere, apply_rm_cut by lia.
-      rewrite Hk0 at 1. rewrite cut_app by reflexivity. cbn [firstn skipn app].
+      rewrite (cut_app' p _ k 0%nat (S m)) by (assumption || lia). cbn [firstn skipn app].
       destruct (N.ltb_spec d c); [lia|]. destruct (N.ltb_spec a2 c); [lia|]. destruct (N.ltb_spec c c); [lia|].
       destruct (N.ltb_spec a2 d); [lia|]. cbn [app]. rewrite Href.
       split; [reflexivity|]. split.
       * rewrite Hk0. apply (idx_ok_at p _ _ a2 []); auto. cbn; lia. intros ? [].
       * rewrite <- Href. cbn [length]. intros Hlt. exfalso.
         assert (length (ref_rem c a2 t) <= length t)%nat by (rewrite Href, skipn_length; lia). lia.
-    + (* (Less, Equal) *) subst a2. cbn [fst snd]. rewrite Hmin, Hmax1, apply_rm_cut by lia.
-      rewrite Hk1 at 2. rewrite Hk0 at 1. rewrite cut_app by reflexivity. cbn [firstn skipn app].
+    + (* (Less, Equal) *) subst a2. cbn [ref_rem]. cbn [fst snd]. rewrite Hmin, Hmax1, apply_rm_cut by lia.
+      rewrite (cut_app' p _ k 0%nat 1%nat) by (assumption || lia). cbn [firstn skipn app].
       destruct (N.ltb_spec d a1); [lia|]. destruct (N.ltb_spec d c); [lia|]. destruct (N.ltb_spec c a1); [lia|].
       destruct (N.ltb_spec d d); [lia|]. cbn [app]. rewrite Hbey by lia.
       split; [reflexivity|]. split; [|cbn [length]; lia].
       rewrite Hk0. apply (idx_ok_at p t _ d []); auto. cbn; lia. intros ? [].
-    + (* (Less, Less) *)
+    + (* (Less, Less) *) cbn [ref_rem].
       rewrite coalesce_lt by (cbn [snd]; lia). cbn [fst snd].
       destruct (N.ltb_spec d a1); [lia|].
       destruct (N.leb_spec c (a2 + 1)) as [Hco|Hno]; cbn [fst snd].
@@ -262,7 +267,7 @@ Proof.
            destruct (N.ltb_spec c a1); [lia|]. destruct (N.ltb_spec a2 d); [|lia]. cbn [app]. rewrite Hbey by lia. cbn [length]; lia.
       * rewrite apply_rm_none by lia. destruct (N.ltb_spec a2 c); [|lia].
         split; [reflexivity|]. split; [left; reflexivity|cbn [length]; lia].
-    + (* (Less, Greater) *)
+    + (* (Less, Greater) *) cbn [ref_rem].
       rewrite rscan_acc by lia.
       destruct (rscan_after emax cp t (k + 1) a1 a2 Hwft) as (t' & m & x & y & E & Hl' & Hm & Href & Hxy); try assumption; try lia.
       { intros b' Hb'. pose proof (Haft b' Hb'). lia. }
@@ -271,20 +276,20 @@ Proof.
       assert (Ere : N.max (N.max 0 (k + 1)) y = k + N.of_nat (S m)).
       { destruct Hxy as [(-> & _ & [->| ->])|(_ & _ & ->)]; lia. }
       rewrite Ers, Ere, apply_rm_cut by lia.
-      rewrite Hk0 at 1. rewrite cut_app by reflexivity. cbn [firstn skipn app].
+      rewrite (cut_app' p _ k 0%nat (S m)) by (assumption || lia). cbn [firstn skipn app].
       destruct (N.ltb_spec d a1); [lia|]. destruct (N.ltb_spec a2 c); [lia|]. destruct (N.ltb_spec c a1); [lia|].
       destruct (N.ltb_spec a2 d); [lia|]. cbn [app]. rewrite Href.
       split; [reflexivity|]. split.
       * rewrite Hk0. apply (idx_ok_at p _ _ a2 []); auto. cbn; lia. intros ? [].
       * rewrite <- Href. cbn [length]. intros Hlt. exfalso.
         assert (length (ref_rem a1 a2 t) <= length t)%nat by (rewrite Href, skipn_length; lia). lia.
-    + (* (Greater, Equal) *) subst a2. cbn [fst snd apply_rm]. unfold start_exclusive, step_down_sat. cbn [fst].
+    + (* (Greater, Equal) *) subst a2. cbn [ref_rem]. cbn [fst snd apply_rm]. unfold start_exclusive, step_down_sat. cbn [fst].
       destruct (N.ltb_spec d a1); [lia|]. destruct (N.ltb_spec d c); [lia|]. destruct (N.ltb_spec c a1); [|lia].
       destruct (N.ltb_spec d d); [lia|]. cbn [app]. rewrite Hbey by lia.
       split; [reflexivity|]. split; [|cbn [length]; lia].
       rewrite Hk1. apply (idx_ok_at p _ _ d [(c, a1 - 1)]); auto. cbn; lia.
       intros ? [<-|[]]. cbn [snd]. lia.
-    + (* (Greater, Less): split *)
+    + (* (Greater, Less): split *) cbn [ref_rem].
       destruct (N.ltb_spec d a1); [lia|]. destruct (N.ltb_spec a2 c); [lia|]. destruct (N.ltb_spec c a1); [|lia].
       destruct (N.ltb_spec a2 d); [|lia]. cbn [app]. rewrite Hbey by lia.
       destruct cp; cbn [fst snd apply_rm].
@@ -303,28 +308,24 @@ Proof.
         destruct (rscan_after emax cp t (k + 1) a1 a2 Hwft) as (t' & m & x & y & E & Hl' & Hm & Href & Hxy); try assumption; try lia.
         { intros b' Hb'. pose proof (Haft b' Hb'). lia. }
         rewrite E. cbn [fst snd rcombine]. unfold start_exclusive, step_down_sat. cbn [fst].
-        assert (Hres : (if d <? a1 then (c, d) :: ref_rem a1 a2 t
-                        else if a2 <? c then (c, d) :: t
-                        else (if c <? a1 then [(c, a1 - 1)] else []) ++ (if a2 <? d then [(a2 + 1, d)] else []) ++ ref_rem a1 a2 t)
-                       = (c, a1 - 1) :: skipn m t').
-        { destruct (N.ltb_spec d a1).
+        assert (Hres : ref_rem a1 a2 (@cons ival (c, d) t) = @cons ival (c, a1 - 1) (skipn m t')).
+        { cbn [ref_rem]. destruct (N.ltb_spec d a1).
           - replace (a1 - 1) with d by lia. rewrite Href. reflexivity.
           - destruct (N.ltb_spec a2 c); [lia|]. destruct (N.ltb_spec c a1); [|lia]. destruct (N.ltb_spec a2 d); [lia|].
             cbn [app]. rewrite Href. reflexivity. }
-        rewrite Hres.
-        assert (Hlenres : (length ((c, a1 - 1) :: skipn m t') <= S (length t))%nat) by (cbn [length]; rewrite skipn_length; lia).
+        assert (Hlenres : (length ((c, (a1 - 1)%N) :: skipn m t') <= S (length t))%nat) by (cbn [length]; rewrite skipn_length; lia).
         destruct Hxy as [(-> & -> & [-> | ->])|(Hm0 & -> & ->)].
         -- rewrite Hmin1. replace (N.min (k + 1) usize_max) with (k + 1) by lia. replace (N.max 0 0) with 0 by lia.
-           rewrite apply_rm_none by lia. cbn [skipn]. split; [reflexivity|]. split; [left; reflexivity|]. cbn [length] in *. lia.
+           rewrite apply_rm_none by lia. rewrite Hres. cbn [skipn]. split; [reflexivity|]. split; [left; reflexivity|]. cbn [length skipn] in *. lia.
         -- rewrite Hmin1. replace (N.min (k + 1) usize_max) with (k + 1) by lia. replace (N.max 0 (k + 1)) with (k + 1) by lia.
-           rewrite apply_rm_cut by lia. rewrite firstn_skipn. cbn [skipn]. split; [reflexivity|]. split; [|cbn [length] in *; lia].
+           rewrite apply_rm_cut by lia. rewrite Hres. rewrite firstn_skipn. cbn [skipn]. split; [reflexivity|]. split; [|cbn [length skipn] in *; lia].
            rewrite Hk1. apply (idx_ok_at p _ _ a2 [(c, a1 - 1)]); auto. cbn; lia. intros ? [<-|[]]. cbn [snd]. lia.
         -- rewrite Hmin1. replace (N.min (k + 1) (k + 1)) with (k + 1) by lia.
            replace (N.max 0 (k + 1 + N.of_nat m)) with (k + N.of_nat (S m)) by lia.
-           rewrite apply_rm_cut by lia. rewrite Hk1 at 1. rewrite cut_app by reflexivity. cbn [firstn skipn app].
+           rewrite apply_rm_cut by lia. rewrite Hres. rewrite (cut_app' p _ k 1%nat (S m)) by (assumption || lia). cbn [firstn skipn app].
            split; [reflexivity|]. split; [|cbn [length] in *; lia].
            rewrite Hk1. apply (idx_ok_at p _ _ a2 [(c, a1 - 1)]); auto. cbn; lia. intros ? [<-|[]]. cbn [snd]. lia.
-      * destruct (N.ltb_spec d a1); [|lia].
+      * cbn [ref_rem]. destruct (N.ltb_spec d a1); [|lia].
         specialize (IH (k + 1) (p ++ [(c, d)]) a1 a2).
         rewrite app_length in IH. cbn [length] in IH. specialize (IH ltac:(lia) Hwft Ha Hae ltac:(lia)).
         destruct (rscan emax t (k + 1) (a1, a2) usize_max 0 cp) as [t' r]. cbn [fst snd] in *.
